@@ -11,8 +11,11 @@ from vf.props import specrun
 from vf.props.e2e import outcome_label, spec_summary
 
 
+INCONSISTENT = ['dimension', 'element_limit-small', 'dimension-rank', 'element_limit-rank']
+
+
 @st.composite
-def strategy(draw):
+def strategy(draw, which=None):
     prof = Profile(vrl=[128, 1024, 8192], max_frames=3, max_channels=4, max_rows=6, max_width=9, casts=True,
                    full_attrs=True, meta_kinds=('axis',), max_meta=2, units=False,
                    sources=('inline', 'dict', 'struct'), shared_datasets=True, upper_names=True)
@@ -22,14 +25,22 @@ def strategy(draw):
     lf = spec['lfs'][0]
     chans = [j for j, op in enumerate(lf['ops']) if op['t'] == 'channel']
     frames = [j for j, op in enumerate(lf['ops']) if op['t'] == 'frame']
-    mode = draw(st.integers(0, 9))
+    mode = 0 if which else draw(st.integers(0, 9))
     if mode == 0 and chans:
         # inconsistent user descriptor: must be rejected
-        j = draw(st.sampled_from(chans))
+        wide = [j for j in chans if (list(lf['ops'][j]['data']['shape'][1:]) or [1])[0] > 1 and not lf['ops'][j].get('data_from')]
+        j = draw(st.sampled_from(wide if (wide and which in ('element_limit-small', 'element_limit-rank')) else chans))
         op = lf['ops'][j]
         dim = list(op['data']['shape'][1:]) or [1]
-        which = draw(st.sampled_from(['dimension', 'element_limit-small', 'dimension-rank']))
+        which = which or draw(st.sampled_from(INCONSISTENT))
         op['attrs'].pop('axis', None)
+        if which == 'element_limit-rank' and dim[0] > 1:
+            # more entries than the sample has dimensions; the first does not bound the width, the product does
+            first = draw(st.integers(1, dim[0] - 1))
+            op['attrs']['element_limit'] = {'v': [first, dim[0] * draw(st.integers(1, 5))], 'r': draw(st.sampled_from(['kw', 'later']))}
+            op['attrs'].pop('dimension', None)
+            spec['inconsistent'] = which
+            return spec
         if which == 'dimension':
             op['attrs']['dimension'] = {'v': [dim[0] + draw(st.integers(1, 3))], 'r': 'kw'}
             op['attrs'].pop('element_limit', None)
@@ -132,7 +143,9 @@ class C08(Property):
 
     def searches(self, ctx):
         n = 3200 if ctx.tier == 'quick' else 40000
-        return [('descriptors', strategy(), n // ctx.nshards)]
+        from vf.core import stratified
+        return [('descriptors', strategy(), n // ctx.nshards)] + \
+            stratified('inconsistent', lambda w: strategy(w), INCONSISTENT, n // 8, ctx)
 
     def run(self, spec, ctx):
         spec = dict(spec)
